@@ -371,7 +371,7 @@ def _build(ck):
             return
         m = out.value
         ok = isinstance(m, AR.WArr) and m.op[0] == 'diag' and isinstance(m.op[1], AR.WArr) and m.op[1].op[0] == 'concatenate'
-        S.oblige('post', bool(ok), tag='diag(concatenate(..))')
+        S.oblige('post', bool(ok), tag='diag(concatenate(..))', shape=True)
         if not ok:
             return
         _, parts, dtype = m.op[1].op
@@ -389,14 +389,14 @@ def _build(ck):
             S.I.depth -= 1
         leaf = xs.get(k)
         ok = isinstance(part, AR.WArr) and part.op[0] == 'ravel' and part.op[1].op[0] == 'broadcast_to'
-        S.oblige('post', bool(ok), tag='each-block-is-broadcast_to(..).ravel()')
+        S.oblige('post', bool(ok), tag='each-block-is-broadcast_to(..).ravel()', shape=True)
         if not ok:
             return
         _, rd, shp = part.op[1].op
         same_leaf_shape = lambda s: z_and(z_eq(s.length, leaf.shape.length), s.forall(lambda i, e: z_eq(e, leaf.shape.get(i))))
         S.oblige('post', same_leaf_shape(shp), tag='broadcast-to-the-leaf-shape')
         ok = isinstance(rd, AR.WArr) and rd.op[0] == 'reshaped_diagonal'
-        S.oblige('post', bool(ok), tag='of-the-reshaped-diagonal')
+        S.oblige('post', bool(ok), tag='of-the-reshaped-diagonal', shape=True)
         if ok:
             S.oblige('post', z_and(same_leaf_shape(rd.op[1].from_shape), z_eq(rd.op[2], leaf.shape.length)),
                      tag='reshaped-for-this-leaf-(normalised-axes-of-its-shape, its-rank)')
